@@ -3,8 +3,8 @@ package cockroachkvs
 import (
 	"encoding/binary"
 
-	"github.com/cockroachdb/pebble/sstable/colblk"
 	sym "github.com/cockroachdb/pebble/internal/verifsym"
+	"github.com/cockroachdb/pebble/sstable/colblk"
 )
 
 // hUintColumn serialises rows 64-bit values the way a colblk uint column of width 8 is laid
